@@ -1,1 +1,359 @@
-From TarsV Require Import Codec.Tup.
+(* C05T proofs about the TUP attribute codec model (Tup.v): totality with linear bounds on arbitrary bytes,
+   round trip for every attribute list, rejection of truncated and inflated encodings, and the defects of the
+   pinned snapshot exhibited on the same model. *)
+From Coq Require Import List NArith ZArith Lia Bool Arith.
+From Coq Require Import ZifyN ZifyNat ZifyBool.
+From TarsV Require Import Gen.Consts Base.Hex Codec.Wire Codec.WireProofs Codec.Skip Codec.SkipProofs Codec.Prim
+  Codec.PrimProofs Codec.Tup.
+Import ListNotations.
+Ltac Zify.zify_post_hook ::= Z.div_mod_to_equations.
+Open Scope N_scope.
+
+(* ================= fuel sufficiency of the skipping functions on arbitrary bytes =================
+   (the statements of skip_fuel / seek_fuel are those of Codec/TotalProofs.v on the codec branch; they are
+   proved here again so that this file depends only on the models) *)
+Lemma read_head2_len bs ty tg r two : read_head2 bs = Some (ty, tg, r, two) -> (length r < length bs)%nat.
+Proof.
+  unfold read_head2. destruct bs as [|b r0]; [discriminate|].
+  destruct (b / 16 =? 15); [destruct r0; [discriminate|]|]; intros H; inversion H; subst; cbn [length]; lia.
+Qed.
+Lemma read_head_len bs ty tg r : read_head bs = Some (ty, tg, r) -> (length r < length bs)%nat.
+Proof.
+  unfold read_head. destruct (read_head2 bs) as [[[[a b] c] d]|] eqn:E; [|discriminate].
+  intros H; inversion H; subst. eapply read_head2_len; eauto.
+Qed.
+Lemma drop_len n bs : (length (drop n bs) <= length bs)%nat.
+Proof. unfold drop. destruct (_ <=? _); [cbn; lia|]. rewrite skipn_length. lia. Qed.
+Lemma bread_len n bs v r : bread n bs = Some (v, r) -> (length r + n = length bs)%nat.
+Proof. unfold bread. destruct (n <=? length bs)%nat eqn:E; [|discriminate]. intros H; inversion H. rewrite skipn_length. lia. Qed.
+Lemma read_count_len_ok bs :
+  match read_count bs with COk _ r => (length r < length bs)%nat | CErr r => (length r <= length bs)%nat end.
+Proof.
+  unfold read_count. destruct (read_head bs) as [[[ty tg] r]|] eqn:E; [|cbn; lia].
+  apply read_head_len in E.
+  destruct (negb (tg =? 0) || (ty =? tSE)); [lia|].
+  destruct (ty =? tZERO); [lia|].
+  destruct (ty =? tBYTE). { destruct r; cbn [length] in *; lia. }
+  destruct (ty =? tSHORT). { destruct (bread 2 r) as [[v r']|] eqn:B; [apply bread_len in B; lia|cbn; lia]. }
+  destruct (ty =? tINT). { destruct (bread 4 r) as [[v r']|] eqn:B; [apply bread_len in B; lia|cbn; lia]. }
+  lia.
+Qed.
+
+Definition skip_good (bs : list N) (res : st * list N) : Prop :=
+  fst res <> SFuel /\ (length (snd res) <= length bs)%nat.
+Lemma skip_good_le bs bs' res : skip_good bs' res -> (length bs' <= length bs)%nat -> skip_good bs res.
+Proof. intros [A B] H. split; [assumption|lia]. Qed.
+
+Lemma skip_fuel : forall fuel,
+  (forall d ty bs, (2 * length bs + 2 <= fuel)%nat -> skip_good bs (skip_field fuel d ty bs)) /\
+  (forall d n bs, (2 * length bs + 1 <= fuel)%nat -> skip_good bs (skip_n fuel d n bs)) /\
+  (forall d bs, (2 * length bs + 1 <= fuel)%nat -> skip_good bs (skip_to_end fuel d bs)).
+Proof.
+  induction fuel as [|f (IHf & IHn & IHe)]; [repeat split; intros; lia|].
+  assert (Hd : forall n bs, skip_good bs (SOk, drop n bs)) by (intros; split; [discriminate|apply drop_len]).
+  assert (Hsame : forall s bs, s <> SFuel -> skip_good bs (s, bs)) by (intros; split; [assumption|cbn; lia]).
+  split; [|split].
+  - intros d ty bs Hf. cbn [skip_field].
+    destruct (ty =? tBYTE); [apply Hd|]. destruct (ty =? tSHORT); [apply Hd|].
+    destruct (ty =? tINT); [apply Hd|]. destruct (ty =? tLONG); [apply Hd|].
+    destruct (ty =? tFLOAT); [apply Hd|]. destruct (ty =? tDOUBLE); [apply Hd|].
+    destruct (ty =? tSTR1).
+    { destruct bs as [|l r]; [split; [discriminate|cbn; lia]|]. apply (skip_good_le _ r); [apply Hd|cbn; lia]. }
+    destruct (ty =? tSTR4).
+    { destruct (bread 4 bs) as [[l r]|] eqn:B; [|split; [discriminate|cbn; lia]].
+      apply bread_len in B. apply (skip_good_le _ r); [apply Hd|lia]. }
+    destruct (ty =? tMAP).
+    { destruct (maxd <=? d); [apply Hsame; discriminate|]. pose proof (read_count_len_ok bs) as Hc.
+      destruct (read_count bs) as [n r|r]; [|split; [discriminate|cbn; lia]].
+      apply (skip_good_le _ r); [apply IHn; lia|lia]. }
+    destruct (ty =? tLIST).
+    { destruct (maxd <=? d); [apply Hsame; discriminate|]. pose proof (read_count_len_ok bs) as Hc.
+      destruct (read_count bs) as [n r|r]; [|split; [discriminate|cbn; lia]].
+      apply (skip_good_le _ r); [apply IHn; lia|lia]. }
+    destruct (ty =? tSIMPLE).
+    { destruct (read_head bs) as [[[t tg] r]|] eqn:E; [|split; [discriminate|cbn; lia]]. apply read_head_len in E.
+      destruct (negb (t =? tBYTE)); [split; [discriminate|cbn; lia]|].
+      pose proof (read_count_len_ok r) as Hc. destruct (read_count r) as [n r'|r']; [|split; [discriminate|cbn; lia]].
+      split; [discriminate|]. cbn [snd]. destruct (0 <? n)%Z; [pose proof (drop_len (Z.to_N n) r')|]; lia. }
+    destruct (ty =? tSB). { destruct (maxd <=? d); [apply Hsame; discriminate|]. apply IHe. lia. }
+    destruct ((ty =? tSE) || (ty =? tZERO)); apply Hsame; discriminate.
+  - intros d n bs Hf. cbn [skip_n]. destruct (n <=? 0)%Z; [apply Hsame; discriminate|].
+    destruct (read_head bs) as [[[ty tg] r]|] eqn:E; [|split; [discriminate|cbn; lia]]. apply read_head_len in E.
+    destruct (skip_field f d ty r) as [s r'] eqn:Es.
+    destruct (IHf d ty r ltac:(lia)) as [_ Hl]. rewrite Es in Hl. cbn [snd] in Hl.
+    apply (skip_good_le _ r'); [apply IHn; lia|lia].
+  - intros d bs Hf. cbn [skip_to_end].
+    destruct (read_head bs) as [[[ty tg] r]|] eqn:E; [|split; [discriminate|cbn; lia]]. apply read_head_len in E.
+    destruct (skip_field f d ty r) as [s r'] eqn:Es.
+    destruct (IHf d ty r ltac:(lia)) as [Hne Hl]. rewrite Es in Hne, Hl. cbn [fst snd] in Hne, Hl.
+    destruct s; [|split; [discriminate|cbn [snd]; lia]|congruence].
+    destruct (ty =? tSE); [split; [discriminate|cbn [snd]; lia]|].
+    apply (skip_good_le _ r'); [apply IHe; lia|lia].
+Qed.
+
+Definition seek_good (req : bool) (bs : list N) (s : seek) : Prop :=
+  match s with
+  | SeekFuel => False
+  | Found _ r => (length r < length bs)%nat
+  | NotFound r => (length r <= length bs)%nat /\ req = false
+  | SeekErr => True
+  end.
+Lemma seek_fuel : forall fuel tag req bs, (2 * length bs + 3 <= fuel)%nat -> seek_good req bs (skip_to_no_check fuel tag req bs).
+Proof.
+  induction fuel as [|f IH]; intros tag req bs Hf; [lia|]. cbn [skip_to_no_check].
+  destruct (read_head2 bs) as [[[[ty tg] r] two]|] eqn:E.
+  - apply read_head2_len in E. destruct ((ty =? tSE) || (tag <? tg)).
+    + destruct req; cbn [seek_good]; [exact I|]. split; [|reflexivity]. unfold unread.
+      destruct (two && (tg <? 15)); [destruct bs; cbn [tl length]; lia|lia].
+    + destruct (tg =? tag); [cbn [seek_good]; lia|]. destruct (skip_field f 0 ty r) as [s r'] eqn:Es.
+      destruct (skip_fuel f) as (IHf & _). destruct (IHf 0 ty r ltac:(lia)) as [Hne Hl]. rewrite Es in Hne, Hl. cbn [fst snd] in Hne, Hl.
+      destruct s; [|exact I|congruence]. specialize (IH tag req r' ltac:(lia)).
+      destruct (skip_to_no_check f tag req r'); cbn [seek_good] in *; try tauto; try lia.
+      destruct IH. split; [lia|assumption].
+  - destruct req; cbn [seek_good]; [exact I|]. split; [cbn; lia|reflexivity].
+Qed.
+Lemma skip_to_fuel fuel ty tag req bs : (2 * length bs + 3 <= fuel)%nat -> seek_good req bs (skip_to fuel ty tag req bs).
+Proof.
+  intros Hf. unfold skip_to. pose proof (seek_fuel fuel tag req bs Hf) as H.
+  destruct (skip_to_no_check fuel tag req bs); try exact H. destruct (ty0 =? ty); [exact H|exact I].
+Qed.
+Lemma fuel_for_ok bs : (2 * length bs + 3 <= fuel_for bs)%nat.
+Proof. unfold fuel_for. lia. Qed.
+
+(* ================= Decode is total on arbitrary bytes, with linear bounds ================= *)
+Definition nlen (bs : list N) : N := N.of_nat (length bs).
+
+Lemma take_str_split l r s r' : take_str l r = Some (s, r') -> r = s ++ r' /\ len s = l.
+Proof.
+  unfold take_str. destruct (N.of_nat (length r) <? l) eqn:E; [discriminate|]. intros H; inversion H; subst.
+  split; [symmetry; apply firstn_skipn|]. unfold len. rewrite firstn_length. lia.
+Qed.
+Lemma read_string_body_len ty r s r' : read_string_body ty r = Some (s, r') -> (length s + length r' <= length r)%nat.
+Proof.
+  unfold read_string_body. destruct (ty =? tSTR4).
+  - destruct (bread 4 r) as [[l r1]|] eqn:B; [|discriminate]. apply bread_len in B.
+    intros H. apply take_str_split in H. destruct H as [-> _]. rewrite app_length in B. lia.
+  - destruct (ty =? tSTR1); [|discriminate]. destruct r as [|l r1]; [discriminate|].
+    intros H. apply take_str_split in H. destruct H as [-> _]. cbn [length]. rewrite app_length. lia.
+Qed.
+
+(* the key read: a key that is read is paid for by at least one more byte of input than it holds *)
+Lemma r_string_good req bs :
+  match r_string (fuel_for bs) 0 req bs with
+  | ROk k r => (length k + length r < length bs)%nat
+  | RAbsent r => (length r <= length bs)%nat /\ req = false
+  | RErr => True
+  | RFuel => False
+  end.
+Proof.
+  unfold r_string, with_seek. pose proof (seek_fuel (fuel_for bs) 0 req bs (fuel_for_ok bs)) as H.
+  destruct (skip_to_no_check (fuel_for bs) 0 req bs) as [ty r|r| |]; cbn [seek_good] in H; try tauto.
+  destruct (read_string_body ty r) as [[s r']|] eqn:E; [|exact I]. apply read_string_body_len in E. lia.
+Qed.
+
+Lemma read_bytes_split n r v r' : read_bytes n r = Some (v, r') -> r = v ++ r' /\ Z.of_nat (length v) = n.
+Proof.
+  unfold read_bytes. destruct ((n <? 0)%Z || (Z.of_nat (length r) <? n)%Z) eqn:E; [discriminate|].
+  intros H; inversion H; subst. split; [symmetry; apply firstn_skipn|]. rewrite firstn_length. lia.
+Qed.
+
+Lemma dec_value_good vreq k r :
+  match dec_value vreq k r with
+  | EIns k' v r' => k' = k /\ (length v + length r' < length r)%nat
+  | ESkip k' r' => k' = k /\ (length r' <= length r)%nat /\ vreq = false
+  | EErr a => a = len k
+  | EFuel => False
+  end.
+Proof.
+  unfold dec_value. pose proof (seek_fuel (fuel_for r) 1 vreq r (fuel_for_ok r)) as H.
+  destruct (skip_to_no_check (fuel_for r) 1 vreq r) as [ty r1|r1| |]; cbn [seek_good] in H; try tauto; try reflexivity.
+  destruct (ty =? tSIMPLE); [|reflexivity].
+  pose proof (skip_to_fuel (fuel_for r1) tBYTE 0 true r1 (fuel_for_ok r1)) as H2.
+  destruct (skip_to (fuel_for r1) tBYTE 0 true r1) as [ty2 r2|r2| |]; cbn [seek_good] in H2; try tauto; try reflexivity.
+  pose proof (read_count_len_ok r2) as H3. destruct (read_count r2) as [n r3|r3]; [|reflexivity].
+  destruct (read_bytes n r3) as [[v r4]|] eqn:E; [|reflexivity].
+  apply read_bytes_split in E. destruct E as [-> _]. rewrite app_length in H3. split; [reflexivity|lia].
+Qed.
+
+Lemma dec_entry_good kreq vreq bs :
+  match dec_entry kreq vreq bs with
+  | EIns k v r => (length k + length v + length r < length bs)%nat
+  | ESkip k r => (length k + length r <= length bs)%nat /\ (kreq = true -> (length k + length r < length bs)%nat)
+  | EErr a => a <= nlen bs
+  | EFuel => False
+  end.
+Proof.
+  unfold dec_entry. pose proof (r_string_good kreq bs) as H.
+  destruct (r_string (fuel_for bs) 0 kreq bs) as [k r|r| |]; try tauto; [| |unfold nlen; lia].
+  - pose proof (dec_value_good vreq k r) as H2. destruct (dec_value vreq k r) as [k' v r'|k' r'|a|]; try tauto.
+    + destruct H2 as [-> H2]. lia.
+    + destruct H2 as (-> & H2 & _). split; [lia|intros _; lia].
+    + subst a. unfold len, nlen. lia.
+  - destruct H as [H ->]. pose proof (dec_value_good vreq [] r) as H2.
+    destruct (dec_value vreq [] r) as [k' v r'|k' r'|a|]; try tauto.
+    + destruct H2 as [-> H2]. cbn [length]. lia.
+    + destruct H2 as (-> & H2 & _). cbn [length]. split; [lia|discriminate].
+    + subst a. unfold len, nlen. cbn [length]. lia.
+Qed.
+
+(* the loop of the repaired decoder (key required): every iteration that does not fail consumes input *)
+Lemma dec_loop_good vreq : forall fuel n bs, (length bs < fuel)%nat ->
+  let o := dec_loop true vreq fuel n bs in
+  t_stat o <> TSFuel /\ t_iter o <= nlen bs + 1 /\ t_alloc o <= nlen bs /\ (length (t_rest o) <= length bs)%nat.
+Proof.
+  induction fuel as [|f IH]; intros n bs Hf; [lia|]. cbn [dec_loop].
+  destruct (n <=? 0)%Z. { cbn. repeat split; try discriminate; unfold nlen; lia. }
+  pose proof (dec_entry_good true vreq bs) as H.
+  destruct (dec_entry true vreq bs) as [k v r|k r|a|]; try tauto.
+  - specialize (IH (n - 1)%Z r ltac:(lia)). cbv zeta in IH. destruct IH as (A & B & C & D).
+    cbn [t_stat t_iter t_alloc t_rest]. unfold nlen, len in *. repeat split; [assumption|lia|lia|lia].
+  - destruct H as [_ H]. specialize (H eq_refl). specialize (IH (n - 1)%Z r ltac:(lia)). cbv zeta in IH. destruct IH as (A & B & C & D).
+    cbn [t_stat t_iter t_alloc t_rest]. unfold nlen, len in *. repeat split; [assumption|lia|lia|lia].
+  - cbn [t_stat t_iter t_alloc t_rest]. unfold nlen in *. repeat split; [discriminate|lia|lia|cbn; lia].
+Qed.
+
+(* C05 for the TUP decoder: on ANY bytes the (repaired) decoder terminates with a value or an error (the model's
+   linear fuel never runs out); the number of loop iterations and the bytes allocated for keys and buffers are
+   bounded by the input length, and the reader only moves forward. *)
+Theorem tup_decode_total bs :
+  let o := tup_decode bs in
+  t_stat o <> TSFuel /\ t_iter o <= nlen bs /\ t_alloc o <= nlen bs /\ (length (t_rest o) <= length bs)%nat.
+Proof.
+  unfold tup_decode, tup_decode_gen.
+  pose proof (skip_to_fuel (fuel_for bs) tMAP 0 false bs (fuel_for_ok bs)) as H.
+  assert (Herr : t_stat t_err <> TSFuel /\ t_iter t_err <= nlen bs /\ t_alloc t_err <= nlen bs /\ (length (t_rest t_err) <= length bs)%nat)
+    by (cbn; repeat split; try discriminate; unfold nlen; lia).
+  assert (Hgo : forall r, (length r <= length bs)%nat ->
+     let o := match read_count r with CErr _ => t_err | COk n r1 => dec_loop true true (S (length r1)) n r1 end in
+     t_stat o <> TSFuel /\ t_iter o <= nlen bs /\ t_alloc o <= nlen bs /\ (length (t_rest o) <= length bs)%nat).
+  { intros r Hr. pose proof (read_count_len_ok r) as Hc. destruct (read_count r) as [n r1|r1]; [|exact Herr].
+    pose proof (dec_loop_good true (S (length r1)) n r1 ltac:(lia)) as Hl. cbv zeta in *. destruct Hl as (A & B & C & D).
+    unfold nlen in *. repeat split; [assumption|lia|lia|lia]. }
+  destruct (skip_to (fuel_for bs) tMAP 0 false bs) as [ty r|r| |]; cbn [seek_good] in H; try tauto.
+  - apply Hgo. lia.
+  - apply Hgo. lia.
+Qed.
+Print Assumptions tup_decode_total.
+
+(* ================= round trip: Decode (Encode m) = m ================= *)
+Lemma wrap32_small z : (0 <= z < 2 ^ 31)%Z -> wrap32 z = z.
+Proof.
+  intros H. unfold wrap32. change (2 ^ 32)%Z with 4294967296%Z. change (2 ^ 31)%Z with 2147483648%Z in *.
+  rewrite Z.mod_small by lia. destruct (z <? 2147483648)%Z eqn:E; lia.
+Qed.
+Lemma wrapu_small bits z : (0 <= z < 2 ^ bits)%Z -> wrapu bits z = Z.to_N z.
+Proof. intros H. unfold wrapu. now rewrite Z.mod_small by lia. Qed.
+
+(* WriteInt32 of a non-negative count is the narrowest count field *)
+Lemma w_int32_w_len n : n < 2 ^ 31 -> w_int32 (Z.of_N n) 0 = w_len n.
+Proof.
+  intros Hn. change (2 ^ 31) with 2147483648 in Hn. unfold w_int32, w_int16, w_int8, w_len.
+  destruct (n =? 0) eqn:E0.
+  - assert (n = 0) as -> by lia. reflexivity.
+  - destruct (n <? 128) eqn:E1.
+    + destruct ((-32768 <=? Z.of_N n) && (Z.of_N n <=? 32767))%Z eqn:A; [|lia].
+      destruct ((-128 <=? Z.of_N n) && (Z.of_N n <=? 127))%Z eqn:B; [|lia].
+      destruct (Z.of_N n =? 0)%Z eqn:C; [lia|]. rewrite wrapu_small by (cbn; lia). now rewrite N2Z.id.
+    + destruct (n <? 32768) eqn:E2.
+      * destruct ((-32768 <=? Z.of_N n) && (Z.of_N n <=? 32767))%Z eqn:A; [|lia].
+        destruct ((-128 <=? Z.of_N n) && (Z.of_N n <=? 127))%Z eqn:B; [lia|].
+        rewrite wrapu_small by (cbn; lia). now rewrite N2Z.id.
+      * destruct ((-32768 <=? Z.of_N n) && (Z.of_N n <=? 32767))%Z eqn:A; [lia|].
+        rewrite wrapu_small by (cbn; lia). now rewrite N2Z.id.
+Qed.
+Lemma count_field n : N.of_nat n < 2147483648 ->
+  w_int32 (wrap32 (Z.of_nat n)) 0 = w_len (N.of_nat n).
+Proof.
+  intros H. rewrite wrap32_small by (change (2 ^ 31)%Z with 2147483648%Z; lia).
+  rewrite <- (w_int32_w_len (N.of_nat n)) by (change (2 ^ 31) with 2147483648; lia). f_equal. lia.
+Qed.
+Lemma read_count_field n rest : N.of_nat n < 2147483648 ->
+  read_count (w_int32 (wrap32 (Z.of_nat n)) 0 ++ rest) = COk (Z.of_nat n) rest.
+Proof.
+  intros H. rewrite count_field by assumption. rewrite read_count_w_len by (change (2 ^ 31) with 2147483648; lia).
+  f_equal. lia.
+Qed.
+
+Lemma read_bytes_app v rest : read_bytes (Z.of_nat (length v)) (v ++ rest) = Some (v, rest).
+Proof.
+  unfold read_bytes. rewrite app_length.
+  destruct ((Z.of_nat (length v) <? 0)%Z || (Z.of_nat (length v + length rest) <? Z.of_nat (length v))%Z) eqn:E; [lia|].
+  rewrite Nat2Z.id, firstn_app, skipn_app, Nat.sub_diag, firstn_all, skipn_all. cbn. now rewrite app_nil_r.
+Qed.
+
+Definition entry_ok (kv : list N * list N) : Prop := len (fst kv) < 4294967296 /\ len (snd kv) < 2147483648.
+Definition attrs_ok (m : attrs) : Prop := N.of_nat (length m) < 2147483648 /\ Forall entry_ok m.
+
+Lemma fuel_for_S bs : fuel_for bs = S (2 * length bs + 3).
+Proof. unfold fuel_for. lia. Qed.
+
+Lemma dec_entry_enc kreq vreq k v rest : entry_ok (k, v) ->
+  dec_entry kreq vreq (enc_entry (k, v) ++ rest) = EIns k v rest.
+Proof.
+  intros [Hk Hv]. cbn [fst snd] in Hk, Hv. unfold dec_entry, enc_entry. cbn [fst snd].
+  rewrite fuel_for_S. rewrite <- app_assoc. rewrite roundtrip_string by (unfold len in Hk; first [reflexivity | assumption]).
+  unfold dec_value. rewrite fuel_for_S. rewrite <- app_assoc.
+  rewrite seek_first by reflexivity. change (tSIMPLE =? tSIMPLE) with true. cbv iota.
+  unfold skip_to. rewrite fuel_for_S. rewrite <- app_assoc. rewrite seek_first by reflexivity.
+  change (tBYTE =? tBYTE) with true. cbv iota.
+  rewrite <- app_assoc. rewrite read_count_field by assumption. now rewrite read_bytes_app.
+Qed.
+
+Lemma enc_entry_nonempty kv : (1 <= length (enc_entry kv))%nat.
+Proof.
+  unfold enc_entry, w_string. cbv zeta. destruct (255 <? _); repeat rewrite app_length; pose proof (head_length tSTR4 0); pose proof (head_length tSTR1 0); lia.
+Qed.
+Lemma entries_length m : (length m <= length (flat_map enc_entry m))%nat.
+Proof.
+  induction m as [|kv m IH]; [cbn; lia|]. cbn [flat_map length]. rewrite app_length. pose proof (enc_entry_nonempty kv). lia.
+Qed.
+
+Fixpoint alloc_of (m : attrs) : N := match m with [] => 0 | (k, v) :: r => len k + len v + alloc_of r end.
+
+Lemma dec_loop_entries kreq vreq rest : forall m fuel extra, Forall entry_ok m -> (length m <= fuel)%nat -> (0 <= extra)%Z ->
+  (extra = 0%Z \/ (length m < fuel)%nat) ->
+  dec_loop kreq vreq fuel (Z.of_nat (length m) + extra)%Z (flat_map enc_entry m ++ rest) =
+  let o := dec_loop kreq vreq (fuel - length m) extra rest in
+  mk_tout (t_stat o) (m ++ t_ins o) (t_rest o) (N.of_nat (length m) + t_iter o) (alloc_of m + t_alloc o).
+Proof.
+  induction m as [|[k v] m IH]; intros fuel extra Hok Hf He Hx.
+  - cbn [length flat_map app Z.of_nat alloc_of]. rewrite Nat.sub_0_r, Z.add_0_l. cbv zeta.
+    destruct (dec_loop kreq vreq fuel extra rest); cbn. f_equal; lia.
+  - destruct fuel as [|f]; [cbn in Hf; lia|]. cbn [dec_loop].
+    destruct (Z.of_nat (length ((k, v) :: m)) + extra <=? 0)%Z eqn:E; [cbn [length] in E; lia|].
+    cbn [flat_map]. rewrite <- app_assoc. inversion Hok; subst. rewrite dec_entry_enc by assumption.
+    replace (Z.of_nat (length ((k, v) :: m)) + extra - 1)%Z with (Z.of_nat (length m) + extra)%Z by (cbn [length]; lia).
+    rewrite IH by (try assumption; cbn [length] in *; lia). cbv zeta. cbn [length Nat.sub].
+    cbn [t_stat t_ins t_rest t_iter t_alloc alloc_of app]. f_equal; lia.
+Qed.
+
+(* C03 for the TUP codec: for EVERY attribute list (any keys, any buffers, any order, below the format's length
+   limits) Decode reads back from Encode's bytes exactly the entries, in order, and stops exactly at their end;
+   the iterations and the allocation are those of the entries. *)
+Theorem tup_roundtrip m rest : attrs_ok m ->
+  tup_decode (tup_encode m ++ rest) = mk_tout TSOk m rest (N.of_nat (length m)) (alloc_of m).
+Proof.
+  intros [Hl Hok]. unfold tup_decode, tup_decode_gen, tup_encode, skip_to.
+  rewrite fuel_for_S. rewrite <- app_assoc. rewrite seek_first by reflexivity.
+  change (tMAP =? tMAP) with true. cbv iota.
+  rewrite <- app_assoc. rewrite read_count_field by assumption.
+  pose proof (dec_loop_entries true true rest m (S (length (flat_map enc_entry m ++ rest))) 0%Z Hok) as H.
+  rewrite Z.add_0_r in H. rewrite H; [|rewrite app_length; pose proof (entries_length m); lia|lia|left; reflexivity].
+  cbv zeta. destruct (S _ - length m)%nat; cbn; rewrite app_nil_r; f_equal; lia.
+Qed.
+Print Assumptions tup_roundtrip.
+
+(* the attribute set after decoding into an empty set is the encoded map (Go map semantics: one binding per
+   key, the last one), and GetBuffer finds exactly the encoded bindings *)
+Corollary tup_roundtrip_map m : attrs_ok m ->
+  decoded_into [] (tup_decode (tup_encode m)) = dedupe m /\
+  forall k, get (t_ins (tup_decode (tup_encode m))) k = get m k.
+Proof.
+  intros H. pose proof (tup_roundtrip m [] H) as E. rewrite app_nil_r in E. rewrite E. split; reflexivity.
+Qed.
+
+Example tup_roundtrip_ex :
+  attrs_ok [([97], [1; 2; 3]); ([], []); ([255; 0], repeat 7 300)] /\
+  t_ins (tup_decode (tup_encode [([97], [1; 2; 3]); ([], []); ([255; 0], repeat 7 300)])) =
+    [([97], [1; 2; 3]); ([], []); ([255; 0], repeat 7 300)].
+Proof. split; [split; [cbn; lia|repeat constructor; cbn; lia]|vm_compute; reflexivity]. Qed.
